@@ -55,6 +55,26 @@ def digest(v, problems=None, path="top"):
     return {"object": type(v).__name__}
 
 
+def attr_orders(v, path="top", out=None):
+    """The order in which every section value BELOW the top lists its attributes (the children of a
+    section type, inherited ones first, in declaration order)."""
+    out = [] if out is None else out
+    if len(path) > 400:
+        return out
+    if isinstance(v, zdt.Wrapped):
+        attr_orders(v.value, path, out)
+    elif hasattr(v, "getSectionAttributes") and hasattr(v, "getSectionType"):
+        names = list(v.getSectionAttributes())
+        if path != "top":
+            out.append((path, names))
+        for a in sorted(names):
+            attr_orders(getattr(v, a), path + "." + a, out)
+    elif isinstance(v, list):
+        for i, x in enumerate(v):
+            attr_orders(x, "%s[%d]" % (path, i), out)
+    return out
+
+
 def containers(v, out=None):
     """All mutable containers (lists/dicts) reachable from a value tree, by id."""
     out = {} if out is None else out
